@@ -641,6 +641,8 @@ def history(rep, rng, proj, nsteps, hid, forced_edits=(), label='random'):
                      found_input=False)
             return 1
         trace = []
+        for c in proj.ordered_calls():
+            it.f(c)             # the filters of the initial configure are in the saved cache even if an edit removes the call
         # the first make after a configure: with several outputs the stamp does not exist yet
         rc, out, invoked, ran, _ = run_make(s.build)
         rep.count('first-make:%s' % ('invoked-skip' if invoked and not ran else 'invoked-ran' if ran else 'quiet'))
@@ -896,4 +898,13 @@ def run(rep):
 
 
 def replay(rep, path):
+    """Corner histories are replayed by label; random histories are regenerated from the recorded seed (the generator
+    is deterministic), i.e. the whole run is repeated."""
+    r = json.load(open(path))
+    for i, (label, proj, edits) in enumerate(corner_histories()):
+        if label == r.get('label'):
+            rep.proof_stage(coqchk=False)
+            history(rep, random.Random(rep.seed), proj, len(edits), 900 + i, forced_edits=edits, label=label)
+            return
+    rep.seed = r.get('seed', rep.seed)
     run(rep)
